@@ -275,6 +275,22 @@ func (r runsCollector) Close() { r.s.Close(); runsStates.Delete(r.s) }
 
 // ------------------------------------------------------------------------------------------------
 
+// flipCtx is a context that is live for its first `after` Err() calls and cancelled from then on: it
+// expires in the MIDDLE of a Next call of a combinator that pulls several source items per call.
+type flipCtx struct {
+	context.Context
+	after int
+	calls int
+}
+
+func (f *flipCtx) Err() error {
+	f.calls++
+	if f.calls > f.after {
+		return context.Canceled
+	}
+	return nil
+}
+
 type fault struct {
 	Kind string `json:"kind"` // "perm", "transient" (source src at position pos), "ctx" (consumer call pos), "cb" (callback invocation pos)
 	Src  int    `json:"src"`
@@ -351,7 +367,11 @@ func run(r rig, p plan) outcome {
 	srcs := mkSrcs(p.Inputs, p.Faults)
 	c := &cb{failAt: -1, onceAt: -1}
 	expired := map[int]bool{}
+	midCall := map[int]int{}
 	for _, f := range p.Faults {
+		if f.Kind == "ctxMid" {
+			midCall[f.Pos] = f.Src // Src reused: number of source pulls after which the context ends
+		}
 		if f.Kind == "cb" {
 			c.failAt = f.Pos
 		}
@@ -386,6 +406,9 @@ func run(r rig, p plan) outcome {
 		ctx := context.Background()
 		if expired[o.calls] {
 			ctx = dead
+		}
+		if k, ok := midCall[o.calls]; ok {
+			ctx = &flipCtx{Context: context.Background(), after: k}
 		}
 		v, err := s.Next(ctx)
 		o.calls++
@@ -592,6 +615,9 @@ func faultPlans(r rig, ins [][]int, two bool) [][]fault {
 	}
 	for j := 0; j <= total+1; j++ {
 		singles = append(singles, fault{"ctx", 0, j})
+		if r.reduce == nil && j <= total {
+			singles = append(singles, fault{"ctxMid", 1, j}, fault{"ctxMid", 2, j})
+		}
 	}
 	if r.hasCB {
 		for q := 0; q < total; q++ {
